@@ -43,9 +43,9 @@ pub fn texec(kv: &mut Kv, sender: &str, msg: ExecuteMsg) -> Result<Response, Str
     let q = mwsim::kv::ChainQuerier { bank, contract: tre_addr() };
     let info = MessageInfo { sender: Addr::unchecked(sender), funds: vec![] };
     let deps = DepsMut { storage: kv, api: &api, querier: QuerierWrapper::new(&q) };
-    match guarded(|| treasury::contract::execute(deps, env(), info, msg)) {
+    match guarded(|| treasury::contract::execute(deps, env(), info, msg).map_err(|e| e.to_string())) {
         Err(_) => Err("PANIC".into()),
-        Ok(Err(e)) => Err(e.to_string()),
+        Ok(Err(e)) => Err(e),
         Ok(Ok(r)) => Ok(r),
     }
 }
